@@ -103,7 +103,7 @@ func randomCase(rng *rand.Rand, prop string) *Case {
 		c.Notify = "NEVER"
 	}
 	c.NoNoop = rng.Intn(8) == 0
-	c.Prog = []string{"das", "das", "das", "dasn", "send", "reset", "two"}[rng.Intn(7)]
+	c.Prog = []string{"das", "das", "das", "dasn", "send", "reset", "two", "das", "das", "conc"}[rng.Intn(10)]
 	c.TLS = 'N'
 	if rng.Intn(6) == 0 {
 		// a STARTTLS session: other capabilities inside TLS than before
@@ -465,6 +465,25 @@ func generate(r *hx.Run, prop string) []*Case {
 		c := base(2, 1, 'q', append(append([]string{}, allCaps...), "STARTTLS"), scriptWith(map[int]string{p: "250:2.0.0_first_line|2.0.0_queued_as_X"}))
 		c.TLS, c.CapsTLS = 'M', allCaps
 		add(c)
+	}
+	// concurrent Send calls on one dialled Client: the body producer of the first message (inside DATA) starts
+	// `go Send(rest)`; Client.Send serialises them, so the dialogue is Send(first); Send(rest)
+	for _, nm := range []int{2, 3} {
+		for _, v := range []struct {
+			kind byte
+			enc  byte
+		}{{'s', 'q'}, {'s', 'n'}, {'w', 'q'}, {'A', 'b'}} {
+			enumScripts(16, 1, negDev, func(sc []smtpx.Decision) {
+				c := base(nm, 1, v.enc, allCaps, sc)
+				c.Prog = "conc"
+				c.Msgs[0].Kind, c.Msgs[0].K, c.Msgs[0].Body = v.kind, 9, bodies[1]
+				add(c)
+			})
+			c := base(nm, 2, v.enc, allCaps, nil)
+			c.Prog = "conc"
+			c.Msgs[0].Kind, c.Msgs[0].K, c.Msgs[0].Body = v.kind, 9, bodies[2]
+			add(c)
+		}
 	}
 	// the other entry points (same oracles): DialAndSend, Dial+Send+Close, Send/Reset/Send, two smtp.Clients of one Client
 	for _, prog := range []string{"dasn", "send", "reset", "two"} {
